@@ -5,9 +5,11 @@ package zone_file
 
 //@ spec func zReplyTo(q *dns.Msg, r *dns.Msg) bool = r != nil && r != q && r.Id == q.Id && r.Response && (len(q.Question) > 0 ==> len(r.Question) == 1 && r.Question[0] == q.Question[0])
 
-//@ func (m *Matcher) Search
-//@   nobody
+// Search (C03): a lookup only — the question is lower-cased in a private copy; nothing reachable
+// (in particular not the query message the question came from) is modified.
+//@ func (m *Matcher) Search [C03]
 //@   log zoneSearch
+//@   requires m != nil
 
 // Reply (C03): a reply is produced only if some question has records; it is built from the query
 // with SetReply (ID and first question of the query).
